@@ -22,6 +22,10 @@ IsOptionsAt(i) == /\ i + HeaderLen - 1 <= Len(Wire)
                   /\ Wire[i] = WireRec.proto
                   /\ Wire[i + HeaderLen - 5] = 5
                   /\ \A j \in 1 .. 4 : Wire[i + HeaderLen - 5 + j] = 0
+\* the stream ends inside an OPTIONS frame (the heartbeat's write was cut)
+TailIsPartialOptions(i) == /\ Len(Wire) - i + 1 < HeaderLen
+                           /\ Wire[i] = WireRec.proto
+                           /\ \A j \in 0 .. 4 : (i + HeaderLen - 5 + j <= Len(Wire)) => Wire[i + HeaderLen - 5 + j] = (IF j = 0 THEN 5 ELSE 0)
 TailIsPrefixOf(b, i) == /\ Len(Wire) - i + 1 < Len(b)
                         /\ \A j \in 1 .. Len(Wire) - i + 1 : Wire[i + j - 1] = b[j]
 
@@ -31,7 +35,7 @@ Walk(i, matched) ==
   ELSE LET cands == {e \in Exps : e.req \notin matched /\ IsPrefixAt(e.bytes, i)} IN
        IF cands # {} THEN LET e == CHOOSE x \in cands : TRUE IN Walk(i + Len(e.bytes), matched \cup {e.req})
        ELSE IF IsOptionsAt(i) THEN Walk(i + HeaderLen, matched)
-       ELSE IF \E e \in Exps : e.req \notin matched /\ TailIsPrefixOf(e.bytes, i)
+       ELSE IF TailIsPartialOptions(i) \/ \E e \in Exps : e.req \notin matched /\ TailIsPrefixOf(e.bytes, i)
             THEN [verdict |-> "none", matched |-> matched, torn |-> TRUE]
        ELSE [verdict |-> "WholeFrames", matched |-> matched, torn |-> FALSE]
 
